@@ -158,6 +158,9 @@ def norm_fact(expr, truth):
        ('isnone', name, bool)   x is None / x is not None
        ('truthy', name, bool)   x / not x
        ('cmp', name, op, const, bool)   x < 0, x == 0, x <= 0 ...
+       ('in', elem, container, bool)    x in c / x not in c
+       ('eq', a, b, bool)               a == b / a != b (operands sorted)
+       ('isinstance', obj, cls, bool)
        ('expr', text, bool)"""
     if isinstance(expr, ast.Compare) and len(expr.ops) == 1:
         l, op, r = expr.left, expr.ops[0], expr.comparators[0]
@@ -174,9 +177,17 @@ def norm_fact(expr, truth):
             o = ops.get(type(op))
             if o:
                 return ("cmp", ln, o, r.value, truth)
+        # membership and general (in)equality, one spelling each
+        if isinstance(op, (ast.In, ast.NotIn)):
+            return ("in", norm_stmt(l), norm_stmt(r), truth != isinstance(op, ast.NotIn))
+        if isinstance(op, (ast.Eq, ast.NotEq)):
+            a, b = sorted((norm_stmt(l), norm_stmt(r)))
+            return ("eq", a, b, truth != isinstance(op, ast.NotEq))
     n = dotted(expr)
     if n:
         return ("truthy", n, truth)
+    if isinstance(expr, ast.Call) and dotted(expr.func) == "isinstance" and len(expr.args) == 2:
+        return ("isinstance", norm_stmt(expr.args[0]), norm_stmt(expr.args[1]), truth)
     return ("expr", norm_stmt(expr), truth)
 
 
@@ -292,4 +303,102 @@ def assigned_names(fnode):
                             out.setdefault(s.id, []).append(ch)
             rec(ch)
     rec(fnode)
+    return out
+
+
+def stale_in_loop(cfg, loop, use_stmt, fnode):
+    """Names read by `use_stmt` (inside the body of `loop`) that can still hold a
+    value from BEFORE this iteration when the statement runs: there is a path from
+    the loop header to the statement on which the name is not assigned.  Such a
+    name carries state from the previous record/line into the current one.
+    Names that are never assigned inside the loop (true loop invariants) and the
+    loop target itself are not reported."""
+    import ast as _ast
+    target = {n.id for n in _ast.walk(loop.target) if isinstance(n, _ast.Name)} \
+        if isinstance(loop, (_ast.For, _ast.AsyncFor)) else set()
+    inside = [s for b in loop.body for s in _ast.walk(b) if isinstance(s, _ast.stmt)]
+    defs = {}
+    for s in inside:
+        tg = []
+        if isinstance(s, _ast.Assign):
+            tg = s.targets
+        elif isinstance(s, (_ast.AugAssign, _ast.AnnAssign)):
+            tg = [s.target]
+        elif isinstance(s, (_ast.For, _ast.AsyncFor)):
+            tg = [s.target]
+        elif isinstance(s, (_ast.With, _ast.AsyncWith)):
+            tg = [i.optional_vars for i in s.items if i.optional_vars is not None]
+        for t in tg:
+            for n in _ast.walk(t):
+                if isinstance(n, _ast.Name) and isinstance(n.ctx, _ast.Store):
+                    defs.setdefault(n.id, []).append(s)
+    heads = cfg.nodes_of(loop)
+    uses = cfg.nodes_of(use_stmt)
+    out = []
+    read = {n.id for n in _ast.walk(use_stmt) if isinstance(n, _ast.Name)
+            and isinstance(n.ctx, _ast.Load)}
+    for name in sorted(read):
+        if name in target or name not in defs:
+            continue
+        avoid = [n for s in defs[name] for n in cfg.nodes_of(s)]
+        if any(cfg.path_exists(h, u, avoid=avoid) for h in heads for u in uses
+               if u not in avoid):
+            out.append(name)
+    return out
+
+
+def unflushed_generators(fnode):
+    """Generators (fnode itself or functions nested in it) that emit records one
+    step BEHIND their input - inside a loop, `yield <pending>` is followed, in the
+    same block, by statements that store the current item as the new pending state -
+    and that do not yield once more after the loop: the last record is lost.
+    Returns [(generator node, in-loop yield stmt)]."""
+    import ast as _ast
+    out = []
+    for g in _ast.walk(fnode):
+        if not isinstance(g, (_ast.FunctionDef, _ast.AsyncFunctionDef)):
+            continue
+        for k, lp in enumerate(g.body):
+            if not isinstance(lp, (_ast.For, _ast.While)):
+                continue
+            tnames = {n.id for n in _ast.walk(lp.target) if isinstance(n, _ast.Name)} \
+                if isinstance(lp, _ast.For) else set()
+            lagging = []
+
+            def scan(stmts):
+                for i, st in enumerate(stmts):
+                    if isinstance(st, _ast.Expr) and isinstance(st.value, _ast.Yield):
+                        rest = stmts[i + 1:]
+                        # what the yield reads ...
+                        read = {n.id for n in _ast.walk(st.value) if isinstance(n, _ast.Name)}
+                        # ... is re-loaded from the current item right afterwards
+                        for r in rest:
+                            stores = set()
+                            if isinstance(r, _ast.Assign):
+                                stores = {n.id for t in r.targets for n in _ast.walk(t)
+                                          if isinstance(n, _ast.Name)}
+                            elif isinstance(r, _ast.Expr) and isinstance(r.value, _ast.Call) \
+                                    and isinstance(r.value.func, _ast.Attribute) \
+                                    and r.value.func.attr in ("append", "add", "extend", "insert") \
+                                    and isinstance(r.value.func.value, _ast.Name):
+                                stores = {r.value.func.value.id}
+                            uses_item = any(isinstance(n, _ast.Name) and n.id in tnames
+                                            for n in _ast.walk(r))
+                            if stores & read and uses_item:
+                                lagging.append(st)
+                                break
+                    for f in ("body", "orelse", "finalbody"):
+                        sub = getattr(st, f, None)
+                        if isinstance(sub, list) and sub and isinstance(sub[0], _ast.stmt) \
+                                and not isinstance(st, (_ast.FunctionDef, _ast.AsyncFunctionDef)):
+                            scan(sub)
+                    for h in getattr(st, "handlers", []) or []:
+                        scan(h.body)
+            scan(lp.body)
+            if not lagging:
+                continue
+            after = [s for s in g.body[k + 1:] for n in _ast.walk(s)
+                     if isinstance(n, _ast.Yield)]
+            if not after:
+                out.append((g, lagging[0]))
     return out
